@@ -65,7 +65,7 @@ func c07codec(c *an.Ctx) {
 		a := an.Strip(v)
 		if sl, ok := a.(*ssa.Slice); ok {
 			if fa, ok := sl.X.(*ssa.FieldAddr); ok {
-				return an.FieldOf(fa).Name()
+				return an.FName(an.FieldOf(fa))
 			}
 			if _, ok := sl.X.(*ssa.Alloc); ok {
 				return "hdr"
@@ -133,7 +133,7 @@ func c07codec(c *an.Ctx) {
 			if !ok {
 				return
 			}
-			name := an.FieldOf(fa).Name()
+			name := an.FName(an.FieldOf(fa))
 			v := an.Strip(x.Val)
 			if call, ok := v.(*ssa.Call); ok {
 				if cf := an.StaticCallee(call); cf != nil && cf.Pkg != nil && cf.Pkg.Pkg.Path() == "encoding/binary" {
@@ -156,7 +156,7 @@ func c07codec(c *an.Ctx) {
 				if ok1 && ok2 && isParam(src.X, dec, 0) {
 					if fa, ok := dst.X.(*ssa.FieldAddr); ok {
 						if lo, hi, ok := sliceBounds(src); ok {
-							rsegs = append(rsegs, seg{an.FieldOf(fa).Name(), lo, hi})
+							rsegs = append(rsegs, seg{an.FName(an.FieldOf(fa)), lo, hi})
 						}
 					}
 				}
@@ -625,7 +625,7 @@ func c07envelope(c *an.Ctx) {
 						f, _ := an.LoadedField(an.Strip(x.Val))
 						good = f == an.FieldOf(fa) && an.CallResultOf(fa.X, c.P.Func("nsqd", "NewMessage")) != nil
 					}
-					c.Check(good, fn, "writer of Message."+an.FieldOf(fa).Name(), x.Pos(), "", "Message."+an.FieldOf(fa).Name()+" is rewritten after creation: redeliveries / other channels see a different id or timestamp")
+					c.Check(good, fn, "writer of Message."+an.FName(an.FieldOf(fa)), x.Pos(), "", "Message."+an.FName(an.FieldOf(fa))+" is rewritten after creation: redeliveries / other channels see a different id or timestamp")
 				}
 				// element store into a Body
 				if ia, ok := x.Addr.(*ssa.IndexAddr); ok && isLoadOfField(ia.X, bodyF) {
